@@ -752,15 +752,38 @@ def _judge_ac(model, uu, fn, deep=False):
     wit = []
     n_cases = 0
 
+    class T:
+        """a target child that is equal to the target children of the same
+        label and a distinct object"""
+
+        def __init__(self, label, j):
+            self.label, self.j = label, j
+
+        def __eq__(self, o):
+            return isinstance(o, T) and o.label == self.label
+
+        def __ne__(self, o):
+            return not self == o
+
+        def __hash__(self):
+            return hash(self.label)
+
+        def __lt__(self, o):
+            return repr(self) < repr(o)
+
+        def __repr__(self):
+            return f"{self.label}#{self.j}"
+
     def run_case(nfree, nfixed, m, table, incoming, cands_extra=(),
-                 other_kind="Sum", identical=False):
+                 other_kind="Sum", identical=False, labels=None):
         """table: set of (fixed index, target index) that match;
         identical: the target *is* the pattern (expr == other holds)"""
         free = [var(f"x{i}") for i in range(nfree)]
         fixed = [Obj("Fixed", {"i": i}) for i in range(nfixed)]
         # pattern children interleaved: fixed first, then free, then a fixed
         kids = tuple(fixed[:1] + free + fixed[1:])
-        targets = tuple(f"t{j}" for j in range(m))
+        targets = tuple(f"t{j}" for j in range(m)) if labels is None else \
+            tuple(T(lb, j) for j, lb in enumerate(labels))
         expr = Obj("AC", {"kind": "Sum", "children": kids})
         other = Obj("AC", {"kind": other_kind, "children": targets})
         if identical:
@@ -776,10 +799,12 @@ def _judge_ac(model, uu, fn, deep=False):
             if not (isinstance(my, Obj) and my.cls == "Fixed"):
                 raise AnalysisError("map_commut_assoc: rec of a child that is "
                                     "a free variable")
-            if oc not in targets:
+            idx = [j for j, t_ in enumerate(targets) if t_ is oc] or [
+                j for j, t_ in enumerate(targets) if t_ == oc]
+            if not idx:
                 raise AnalysisError("map_commut_assoc: rec against something "
                                     "that is no target child")
-            if (my.fields["i"], targets.index(oc)) not in table:
+            if (my.fields["i"], idx[0]) not in table:
                 return []
             eq = mk_record(it, n_, [[(var(f"@{my.fields['i']}"), oc)]], {})
             return it.call_function(glob["unify_many"].fn, [list(urecs), eq],
@@ -843,7 +868,8 @@ def _judge_ac(model, uu, fn, deep=False):
                     wit.append(f"{label}: a record leaves the pattern's other "
                                f"child {i} unmatched")
                     return
-                if (i, targets.index(t)) not in table:
+                if not any((i, j_) in table for j_, t_ in enumerate(targets)
+                           if t_ == t):
                     wit.append(f"{label}: a record pairs child {i} with {t}, "
                                "which it does not match")
                     return
@@ -928,6 +954,14 @@ def _judge_ac(model, uu, fn, deep=False):
     n_cases += 2
     run_case(0, 1, 1, {(0, 0)}, [[("@0", "elsewhere")]], identical=True)
     run_case(0, 2, 2, {(0, 0), (1, 1)}, [[("@1", "elsewhere")]], identical=True)
+    # equal target children (f(x) + f(x) + y): each is a child of its own --
+    # two equal pattern children need both of them
+    n_cases += 3
+    run_case(1, 2, 3, {(0, 0), (0, 1), (1, 0), (1, 1)}, [[]],
+             labels=("A", "A", "B"))
+    run_case(0, 2, 2, {(0, 0), (0, 1), (1, 0), (1, 1)}, [[]],
+             labels=("A", "A"))
+    run_case(1, 1, 3, {(0, 0), (0, 1)}, [[]], labels=("A", "A", "B"))
     # a target of another class is no match
     n_cases += 1
     run_case(1, 1, 2, {(0, 0)}, [[]], other_kind="Product")
@@ -1613,7 +1647,10 @@ def _matchpy(ctx, model):
         if name in ("TupleOp",):
             continue
         h = model.lookup(frm, mmv)
-        ok = h is not None and h.kind == "func"
+        # (a def, an alias, or a function made by a factory in the class body)
+        ok = h is not None and (h.kind == "func" or isinstance(
+            h.node.value if h.kind == "ann" else h.node,
+            (ast.Call, ast.Name, ast.Lambda, ast.Attribute)))
         ctx.ob(f"T/matchpy/{name}/from-handler", ok, c.loc(),
                f"{name}._mapper_method = {mmv} is implemented by the "
                "from-mapper" if ok else
